@@ -19,6 +19,7 @@ import itertools
 from hypothesis import strategies as st
 
 from vf import build, strategies as S
+from vf.core import digest as core_digest
 from vf.core import Violation, call
 
 COL_IDS = ["a", "b", "c", "d", "e", "x", "y", "z", "p", "q"]
@@ -207,10 +208,17 @@ def materialize(case, ev):
                 return None
         classes = ["model_derived", "model_active" if case.get("active", True) else "model_inactive"]
         return System(poly, [t[0] for t in tr], [(t[1], t[2]) for t in tr], rows, [v.id for v in poly.index], classes)
-    poly = call(build.polyhedron, case, what="constructing the polyhedron")
+    spec = dict(case)
+    mx = max([abs(int(x)) for r in case["m"] for x in r] + [0])
+    pick = int(core_digest(case), 16) % 4
+    if pick == 1 and mx <= 32767:
+        spec["dtype"] = "int16"
+    elif pick == 2 and mx <= 2 ** 31 - 1:
+        spec["dtype"] = "int32"
+    poly = call(build.polyhedron, spec, what="constructing the polyhedron")
     rows = [(r[0], list(r[1:])) for r in case["m"]]
     index_ids = list(case["index"]) if case.get("index") else list(range(len(rows)))
-    classes = ["explicit_index" if case.get("index") else "default_index"]
+    classes = ["explicit_index" if case.get("index") else "default_index", "matrix_dtype=" + spec.get("dtype", "int64")]
     return System(poly, [v[0] for v in case["vars"]], [(v[1], v[2]) for v in case["vars"]], rows, index_ids, classes)
 
 
